@@ -100,6 +100,17 @@ CHECKS = {
             'combinations (message x handler x position).',
             'Trusted: the small result model in props/c08.py (endpoint-side values go to render, others are final).',
             'DESIGN.md section 5, C08'),
+    'C09': ('E1-product-enumerator',
+            'bounded-exhaustive product of error classes x hostile field payloads x Accept headers x handlers; RFC '
+            'negotiation reference, parser-based and differential-structure oracles',
+            'Every HTTPException class (raised and returned) with default fields, overridden code and each of 11 hostile '
+            'payloads in detail/message/error_type, uncaught exceptions whose message, local, query, header and cookie '
+            'carry the payloads, and 404s for hostile paths, under 26 Accept headers and both handlers; status, '
+            'negotiated format (ref/negotiate.py), JSON/XML parse + field equality, HTML tag/attribute skeleton equal '
+            'to the neutral-payload rendering. Escaping is a for-all-strings claim; the payload catalogue x carrier '
+            'product is the bounded slice of it.',
+            'Trusted: ref/negotiate.py, html.parser, json, xml.etree.',
+            'DESIGN.md section 5, C09'),
 }
 
 NOT_YET = 'check not built yet in this revision of /verif (planned: bounded exhaustive exploration, see DESIGN.md section 5)'
